@@ -169,6 +169,14 @@ def sharedDisagree (cs : List (Callable String × List Ident)) (os : List Opts) 
     (k1.getLast?.map (·.func)) == (k2.getLast?.map (·.func)) && k1.getLast?.isSome &&
     os.any fun o => stableExcludedB c1.baseDesc o != stableExcludedB c2.baseDesc o
 
+/-- `(enter t status)` | `(leave t)` | `(call t strict opts callable (args) kw)` -/
+def tevent? : Sexp → Option (TEvent String)
+  | .list [.atom "enter", t, st] => do pure (.ctx (← t.nat?, some (← status? st)))
+  | .list [.atom "leave", t] => do pure (.ctx (← t.nat?, none))
+  | .list [.atom "call", t, strict, o, c, .list args, kw] => do
+      pure (.call (← t.nat?) (← strict.bool?) (← opts? o) (← callable? c) (← strs? args) (← kw? kw))
+  | _ => none
+
 def run (f : Option String) : String := f.getD "bad-args"
 
 def handlers : List (String × (List Sexp → String)) := [
@@ -203,6 +211,10 @@ def handlers : List (String × (List Sexp → String)) := [
         .list (.atom "effects" :: effs.map effectSexp),
         .list [.atom "class", Sexp.ofBool (sharedDisagree cs (hs.map (·.opts))), Sexp.ofBool (cs.any fun (c, _) => c.foreignSelf),
                Sexp.ofBool (cs.any fun (c, _) => c.uncacheableBase)]]))),
+  ("c13.threads", fun a => run do
+      let [.list evs] := a | none
+      let es ← evs.mapM tevent?
+      pure (toString (Sexp.list (.atom "effects" :: (runThreads (fun _ => []) es).map effectSexp)))),
   ("c13.tables", fun _ => toString (Sexp.list [
       .list (.atom "rules" :: conversionRules.map fun r => .list [.atom (ruleKindName r.kind), Sexp.ofStrs r.pfx]),
       .list (.atom "chain" :: chain.map fun s => .list [.atom (checkName s.check), Sexp.ofBool s.updateCache]),
